@@ -10,7 +10,10 @@ note = os.path.join(agentdir, "note%s.md" % k)
 wt = tempfile.mkdtemp(prefix="seedcheck.", dir="/tmp")
 os.rmdir(wt)
 def sh(cmd, cwd=None, env=None):
-    p = subprocess.run(cmd, shell=True, cwd=cwd, env=env, capture_output=True, text=True)
+    try:
+        p = subprocess.run(cmd, shell=True, cwd=cwd, env=env, capture_output=True, text=True, timeout=900)
+    except subprocess.TimeoutExpired:
+        return 124, 'TIMEOUT'
     return p.returncode, (p.stdout + p.stderr)
 meta = dict(name=name, breaks=breaks, source="independent sub-agent given only the property text and a scratch worktree")
 try:
